@@ -405,7 +405,7 @@ UBX_PAYLOADS_GET = {
         "flags3": (
             X1,
             {
-                "reserved3": U4,
+                "reserved4": U4,
                 "cntBothEdges": U1,
             },
         ),
@@ -591,7 +591,7 @@ UBX_PAYLOADS_GET = {
                 "staticHoldMask": U1,
                 "dgpsMask": U1,
                 "cnoThreshold": U1,
-                "reserved0": U1,
+                "reserved2": U1,
                 "utc": U1,
             },
         ),
@@ -1039,7 +1039,7 @@ UBX_PAYLOADS_GET = {
                 "enableEXTINT1": U1,
                 "enableHostMeasInt": U1,
                 "enableHostMeasExt": U1,
-                "reserved1": U2,
+                "reserved2": U2,
                 "useAnyFix": U1,
                 "disableMaxSlewRate": U1,
                 "issueFreqWarning": U1,
